@@ -1,5 +1,4 @@
--- imports RouterEndToEnd_proof.lean (Probe.EndToEnd)
-import Probe.EndToEnd
+import RouterEndToEnd_proof
 namespace Tree
 /-- non-vacuity: a route set with a static/parameter sibling clash and a fully static template is accepted by
     the builder, so the hypotheses of `build_complete_sound`, `static_wins`, `dispatch_sound` are met -/
